@@ -127,3 +127,177 @@ def explore(mk, body, nproc=None, seed_paths=64, wall_cap=None, seed=0):
             for a in pool.imap_unordered(_run_prefix, pending, chunksize=1):
                 acc.merge(a)
     return acc
+
+
+# =========================================================================== visited-state pruning
+# A driver with natural step boundaries (entry into Poll::poll, end of one channel operation, ...) calls
+# `boundary(ex, acc, level, roots)` there. In level mode the explorer expands the frontier level by level: every distinct
+# canonical state (real heap + ghost state + path condition, modulo renaming of solver variables) is expanded once.
+# Identical signature => isomorphic states => identical futures, so nothing reachable within the depth bound is lost.
+import mirsym as _ms
+
+
+class StopAtBoundary(Exception):
+    pass
+
+
+def canon(roots, solver, pc_fn=None):
+    ids = {}; vmap = {}; out = []
+
+    def zexpr(e):
+        e = z3.simplify(e)
+        for v in _vars(e):
+            n = v.decl().name()
+            if n not in vmap: vmap[n] = (v, z3.Const('!c%d' % len(vmap), v.sort()))
+        if vmap: e = z3.substitute(e, *[p for p in vmap.values()])
+        return e.sexpr()
+
+    def walk(o):
+        if o is None or isinstance(o, (bool, int, str, float)): out.append(repr(o)); return
+        if z3.is_expr(o): out.append(zexpr(o)); return
+        if isinstance(o, (list, tuple)):
+            out.append('['); [walk(x) for x in o]; out.append(']'); return
+        if isinstance(o, dict):
+            out.append('{')
+            for k in sorted(o, key=repr): out.append(repr(k)); walk(o[k])
+            out.append('}'); return
+        if isinstance(o, (set, frozenset)):
+            out.append('{' + ','.join(sorted(repr(x) for x in o)) + '}'); return
+        i = ids.get(id(o))
+        if i is not None: out.append('@%d' % i); return
+        ids[id(o)] = len(ids)
+        if isinstance(o, _ms.Cell): out.append('c'); walk(o.v); return
+        if isinstance(o, _ms.Enum): out.append('E' + o.name + '::' + o.variant); [walk(c.v) for c in o.f]; out.append(';'); return
+        if isinstance(o, _ms.Struct): out.append('S' + str(o.name)); [walk(c.v) for c in o.f]; out.append(';'); return
+        if isinstance(o, _ms.Array): out.append('A'); [walk(c.v) for c in o.e]; out.append(';'); return
+        if isinstance(o, _ms.Ref):
+            lv = o.lv
+            out.append('&')
+            if isinstance(lv, _ms.LCell): walk(lv.c)
+            else: walk(lv.arr); walk(lv.idx)
+            return
+        if isinstance(o, (_ms.Unit, _ms.Opaque)): out.append('o'); return
+        if isinstance(o, _ms.ClosureVal): out.append('C' + o.ty); [walk(c.v) for c in getattr(o, 'f', [])]; return
+        d = getattr(o, '__dict__', None)
+        if d is None: out.append(type(o).__name__); return
+        out.append('<' + type(o).__name__)
+        for k in sorted(d):
+            if k.startswith('_') or callable(d[k]): continue
+            out.append(k); walk(d[k])
+        out.append('>')
+
+    walk(roots)
+    if pc_fn is not None:
+        k = pc_fn(solver)
+        if k is not None:
+            out.append('|PC*|'); out.append(repr(k))
+            return '\x1f'.join(out)
+    # path condition: keep only the atoms connected (through shared variables) to a variable that occurs in the state;
+    # atoms over dead variables only are satisfiable (the path is feasible) and independent of the future
+    atoms = []
+    for a in solver.assertions():
+        vs = [v.decl().name() for v in _vars(a)]
+        if vs and all('#' in n for n in vs): continue
+        atoms.append((a, set(vs)))
+    live = set(vmap)
+    changed = True
+    while changed:
+        changed = False
+        for a, vs in atoms:
+            if vs & live and not vs <= live: live |= vs; changed = True
+    pcs = [zexpr(a) for a, vs in atoms if (vs & live) or not vs]
+    out.append('|PC|'); out += pcs
+    return '\x1f'.join(out)
+
+
+def _vars(e):
+    seen = set(); res = []
+    def go(x):
+        if x.get_id() in seen: return
+        seen.add(x.get_id())
+        if z3.is_const(x) and x.decl().kind() == z3.Z3_OP_UNINTERPRETED: res.append(x); return
+        for c in x.children(): go(c)
+    go(e)
+    return res
+
+
+def boundary(ex, acc, level, roots, pc_fn=None):
+    """Call at a step boundary. In level mode: when the target level is reached, record (signature -> decision prefix)
+    and stop the path."""
+    stop_at = getattr(ex, 'stop_at', None)
+    if stop_at is None or level < stop_at: return
+    sig = canon(roots, ex.solver, pc_fn)
+    dec = list(ex.decisions[:ex.dpos])
+    fr = acc.__dict__.setdefault('frontier', {})
+    if sig not in fr or (len(dec), dec) < (len(fr[sig]), fr[sig]): fr[sig] = dec
+    raise StopAtBoundary()
+
+
+def _run_level_task(task):
+    prefix, stop_at = task
+    acc = Acc(); acc.frontier = {}
+    pending = [prefix]
+    mk, body = _G['mk'], _G['body']
+    deadline = _G.get('deadline')
+    while pending:
+        if deadline and time.time() > deadline:
+            acc.unknown.append('wall cap reached with %d open prefixes in a worker' % len(pending)); break
+        dec = pending.pop()
+        ex = mk(); ex.decisions = list(dec); ex.stop_at = stop_at
+        try: body(ex, acc)
+        except (Abort, StopAtBoundary): pass
+        except Unknown as u: acc.unknown.append(str(u)[:300])
+        acc.paths += 1; acc.steps += ex.steps; acc.queries += ex.nq; acc.solver_s += ex.tsolve; acc.fn_used |= ex.fn_used
+        pending.extend(ex.pending)
+    return acc
+
+
+def explore_levels(mk, body, levels, nproc=None, wall_cap=None, seed=0):
+    """Level-synchronous exploration with visited-state pruning. `body` must call boundary(ex, acc, k, roots) at the
+    k-th boundary (k = 1, 2, ...). Returns (Acc, per-level distinct state counts)."""
+    nproc = nproc or int(os.environ.get('VERIF_JOBS', '14'))
+    _G['mk'], _G['body'] = mk, body
+    _G['deadline'] = time.time() + wall_cap if wall_cap else None
+    total = Acc(); frontier = [[]]; counts = []; seen = set(); _G['t0'] = time.time()
+    with mp.get_context('fork').Pool(nproc) as pool:
+        for lvl in range(1, levels + 1):
+            tasks = [(p, lvl) for p in frontier]
+            nxt = {}
+            it = pool.imap_unordered(_run_level_task, tasks, chunksize=1) if len(tasks) > 1 else map(_run_level_task, tasks)
+            for a in it:
+                total.merge(a)
+                for sig, dec in a.frontier.items():
+                    if sig in seen: continue
+                    if sig not in nxt or (len(dec), dec) < (len(nxt[sig]), nxt[sig]): nxt[sig] = dec
+            seen |= set(nxt)
+            frontier = [nxt[s] for s in sorted(nxt)]
+            counts.append(len(frontier))
+            if os.environ.get('VERIF_VERBOSE'): print('[level %d] new states %d paths %d t=%.0fs' % (lvl, len(frontier), total.paths, time.time() - (_G['t0'])), flush=True)
+            total.states |= set(hash(s) for s in nxt)
+            if _G['deadline'] and time.time() > _G['deadline']:
+                total.unknown.append('wall cap reached at level %d' % lvl); break
+            if not frontier: break
+    total.level_counts = counts
+    return total
+
+
+def single_var_pc(name, values):
+    """Semantic canonical form of a path condition that mentions only the bit-vector variable `name`: the tuple of truth
+    values of the whole condition at each of `values` (which must contain every constant the code can compare the variable
+    with, plus one representative of 'larger than all of them'). Returns None if another variable occurs."""
+    def f(solver):
+        res = [True] * len(values); var = None
+        for a in solver.assertions():
+            vs = _vars(a)
+            if vs and all('#' in v.decl().name() for v in vs): continue
+            for v in vs:
+                if v.decl().name() != name: return None
+                var = v
+            if var is None: continue
+            for i, c in enumerate(values):
+                if not res[i]: continue
+                t = z3.simplify(z3.substitute(a, (var, z3.BitVecVal(c, var.size()))))
+                if z3.is_false(t): res[i] = False
+                elif not z3.is_true(t): return None
+        return tuple(res)
+    return f
